@@ -108,6 +108,8 @@ Definition audited_fields : list (string * string) := [
   ("genql.Query", "postProcessorsMut sync.Mutex");
   ("genql.Query", "selectDefinition SelectDefinition");
   ("genql.Query", "singletonExecutions map[string]any");
+  (* guards the memo map only (D79); holds no value of its own: not state the model has to carry *)
+  ("genql.Query", "singletonMut sync.Mutex");
   ("genql.Query", "wg sync.WaitGroup");
   ("genql.Query", "whereDefinition WhereDefinition");
   (* sanitizer: a Command is its parts and nothing else (Model/Sanitizer.v) *)
@@ -137,10 +139,9 @@ Definition audited_hash : list (string * string) := [
 (* ---------------------------------------------------------------- assignments to struct fields *)
 (* which function writes which field.  The models treat a prepared query as immutable during exec(): the window,
    order, group, select and where definitions are written by the Build* functions only (called from Prepare),
-   the per-query memo by AggrFunExpr / FunExpr, the row sets by exec / ExistExpr / Build*.  A new writer (e.g.
+   the per-query memo by AggrFunExpr / FunExpr (through setSingleton), the row sets by exec / ExistExpr / Build*.  A new writer (e.g.
    exec storing a clamped LIMIT back into the query) is state the model does not carry from one Exec to the next. *)
 Definition audited_writes : list (string * string) := [
-  ("genql.AggrFunExpr", "singletonExecutions");
   ("genql.BuildCte", "data");
   ("genql.BuildFromAliasedTable", "dual");
   ("genql.BuildFromAliasedTable", "from");
@@ -159,7 +160,6 @@ Definition audited_writes : list (string * string) := [
   ("genql.BuildUnion", "selectDefinition");
   ("genql.CompletedCallback", "completed");
   ("genql.ExistExpr", "from");
-  ("genql.FunExpr", "singletonExecutions");
   ("genql.HardCodedValueExprOpt", "hardCodedRead");
   ("genql.HashJoin", "left");
   ("genql.HashJoin", "leftIdent");
@@ -194,6 +194,8 @@ Definition audited_writes : list (string * string) := [
   ("genql.addPostProcessors", "postProcessors");
   ("genql.exec", "filtered");
   ("genql.exec", "from");
+  (* the memo writes of FunExpr / AggrFunExpr / shareSingletons, under query.singletonMut (D79) *)
+  ("genql.setSingleton", "singletonExecutions");
   ("sanitize.NewQuery", "stateFn");
   ("sanitize.backtickState", "parts");
   ("sanitize.backtickState", "pos");
